@@ -36,6 +36,18 @@ Oracles on the real code (the property's own statement; ctx.fail with a concrete
             the library's Exp / @ on float64 copies; strategy.update receives cat(J'), D, cat(R')
   frozen  : a model with a requires_grad=False parameter must still step and move every trainable parameter by its own
             slice (this found defects D29 / D29b, since repaired in /repo)
+  purity / attributes / aliasing (hardening): every tensor the caller passed (inputs, targets, step and constructor
+            weights — also as non-contiguous views, expanded tensors, slices of larger buffers, one tensor used twice) is
+            bit-identical after step(), the storage next to a view is untouched, a parameter that is a view of the caller's
+            buffer is updated *in place*, and min / max / reject / solver / strategy / corrector / weight of the optimizer
+            are unchanged by a call
+  weight-view: a valid SPD weight of a documented shape must be accepted whatever its strides (this found D37, repaired)
+  itemwise : a batch of independent items (every leaf batched) stepped by GN moves item t exactly as the step on item t
+            alone (per-item targets exact / tiny / ordinary / far in one batch; every kernel x {auto, Fast, Triggs})
+  crash    : anything the implementation returns that the check cannot even process is reported with the case
+Histories (hardening): from the second call on every per-call argument may be replaced (input values and batch shapes,
+targets, step weights and their documented shape / layout), the caller may overwrite its own input / target tensors and
+the constructor weight in place, and may modify parameters in place (copy_, add_, item assignment) between steps.
 Degenerate situations are counted, not judged (input_distribution `degenerate.*`): non-finite forward pass after a
 deliberately bad trial step, |D| > 1e4 (Exp loses its phase / overflows), damped diagonal beyond the dtype's range.
 """
@@ -43,6 +55,7 @@ from __future__ import annotations
 
 import contextlib
 import io
+import json
 import math
 import random
 import warnings
@@ -64,7 +77,12 @@ META = {
             "single or per residual); solvers PINV/LSTSQ (GN, LM) + Cholesky/CG (LM); strategies Constant/Adaptive/TrustRegion; "
             "damping ladder 1e-9..1e3; clamps min 1e-9..50 x max 1e-3..1e32 (incl. min>max); reject 0..5; vectorize on/off; "
             "float64/float32; 1-3 consecutive step() calls on the same optimizer with param_groups min/max/damping edited in "
-            "between; LM trials forced to be rejected 0-3 times by a solver wrapper that returns a bad multiple of D. A fixed "
+            "between, every per-call argument (input values / batch shapes, targets, step weights, constructor weight in place, "
+            "parameters in place) varied from the second call on; memory layouts: inputs / targets / weights / parameters as "
+            "non-contiguous views, expanded weights, slices of guarded buffers, shared tensors; extreme-but-valid elements "
+            "(rotation up to pi-1e-3, translations 1e3, scales e^+-12, weights 1e-8..1e8) with probability 0.06 per leaf; "
+            "per-item target distances (mixed regimes in one batch); an item-wise stream (batched GN step == step on each item "
+            "alone) over every kernel x corrector; LM trials forced to be rejected 0-3 times by a solver wrapper that returns a bad multiple of D. A fixed "
             "deterministic corner corpus (all weight shapes on a rank-3 residual, clamp regimes, multi-trial damping, all "
             "group kinds incl. Sim3 scale steps, tiny/zero steps, two correctors, step-weight override, edited clamps, frozen "
             "parameter) precedes the random cases on every seed. non-trivial = at least one trainable parameter is reached by "
@@ -506,7 +524,16 @@ def update_tolerances(env, before, after_ref, D, eps, floor=0.0):
                 # tolerance for Exp, C01); the group product t' = t_d + s_d R_d t: 64·eps·scale
                 sc = torch.maximum(torch.maximum(x[:, ts].abs().amax(1) * torch.clamp(sdl, min=1.0), r[:, ts].abs().amax(1)), x[:, ts].abs().amax(1))
                 tstep = d[:, :3].abs().amax(1) * torch.clamp(sdl, min=1.0)
-                t[:, ts] = ((64 * eps * sc + 4 * math.sqrt(eps) * tstep) * big + 1e-300).unsqueeze(1)
+                # the closed-form coefficients of Exp's translation block cancel like eps/theta (and eps/|sigma| for Sim3):
+                # allowance 64·eps·max(1, 1/theta, 1/|sigma|), never more than the property's 4·sqrt(eps)
+                th_ = d[:, U.PHISL[g]].norm(dim=1)
+                small = th_.clone()
+                if U.SIGIDX[g] is not None:
+                    sg_ = d[:, U.SIGIDX[g]].abs()
+                    small = torch.where((sg_ > 0) & ((sg_ < small) | (small == 0)), sg_, small)
+                amp = torch.where(small > 0, torch.clamp(1.0 / small, min=1.0), torch.ones_like(small))
+                rel = torch.clamp(64 * eps * amp, max=4 * math.sqrt(eps))
+                t[:, ts] = ((64 * eps * sc + rel * tstep) * big + 1e-300).unsqueeze(1)
             if U.SIDX[g] is not None:
                 t[:, U.SIDX[g]] = 64 * eps * r[:, U.SIDX[g]].abs() * (1 + d[:, U.SIGIDX[g]].abs())
         else:
@@ -592,7 +619,8 @@ def public_state(opt):
             "jackwargs": dict(opt.jackwargs), "solver": id(opt.solver), "strategy": id(getattr(opt, "strategy", None)),
             "corrector": [id(c_) for c_ in opt.corrector], "n_groups": len(opt.param_groups),
             "params": [id(p_) for p_ in pg["params"]], "high": pg.get("high"), "low": pg.get("low"), "up": pg.get("up"),
-            "factor": pg.get("factor")}
+            "factor": pg.get("factor"),
+            "weight": None if opt.weight is None else ([id(w_) for w_ in opt.weight] if isinstance(opt.weight, (tuple, list)) else id(opt.weight))}
 
 
 def check_case(ctx: Ctx, case, pending):
@@ -688,8 +716,14 @@ def _check_case(ctx: Ctx, case, pending):
         for nm_, buf_, lay_ in env.model.param_bufs:
             if lay_ == "zd":
                 bufs_ok = bufs_ok and bool(buf_[0] == G.GUARD) and bool(buf_[2] == G.GUARD)
+                region = buf_[1]
             else:
                 bufs_ok = bufs_ok and G.guard_ok(buf_, lay_)
+                region = buf_[..., 1:-1] if lay_ == "slice" else buf_[..., ::2]
+            if not torch.equal(torch.nan_to_num(region, nan=12345.0), torch.nan_to_num(raw(getattr(env.model, nm_)), nan=12345.0)):
+                ctx.fail(cd, f"aliasing: parameter {nm_} is a view of the caller's buffer, but after step() the buffer no longer holds "
+                             f"the parameter's values (the update was not made in place) ({tag})")
+                ok = False
         if not bufs_ok:
             ctx.fail(cd, f"purity: step() wrote outside a view (storage of the caller's buffer next to an input / target / weight / parameter view changed) ({tag})")
             ok = False
@@ -749,9 +783,14 @@ def _check_case(ctx: Ctx, case, pending):
                 else:
                     kern = build_kernel(kspec)
                     x = (R64 * R64).sum(-1, keepdim=True) if R64.dim() else (R64 * R64).reshape(1)
-                    xg = x.detach().clone().requires_grad_(True)
-                    with torch.enable_grad():
-                        g1 = torch.autograd.grad(kern(xg).sum(), xg)[0]
+                    # rho' item by item (each |R_item|^2 on its own): a kernel that decides something for the whole batch
+                    # must not be able to agree with itself here
+                    g1 = torch.zeros_like(x)
+                    xf, gf = x.reshape(-1), g1.reshape(-1)
+                    for it_ in range(xf.numel()):
+                        xg = xf[it_:it_ + 1].detach().clone().requires_grad_(True)
+                        with torch.enable_grad():
+                            gf[it_] = torch.autograd.grad(kern(xg).sum(), xg)[0][0]
                     sc_ = g1.sqrt()
                     sR = sc_ * R64
                     sJ = sc_.expand_as(R64).reshape(-1, 1) * J64
@@ -826,12 +865,27 @@ def _check_case(ctx: Ctx, case, pending):
                     ctx.fail(cd, f"jac: stacked Jacobian has shape {list(Jobs.shape)}, expected {list(Jfd.shape)} ({tag})")
                     ok = False
                 else:
-                    sc = max(1.0, float(Jfd.abs().max()))
+                    # per (residual, parameter) block: relative to that block's own scale (a global scale would swallow a
+                    # wrong small block next to a large one) + the absolute accuracy of the finite differences
                     err = (Jobs - Jfd).abs()
-                    if float(err.max()) > tolj * sc:
-                        ij = (err == err.max()).nonzero()[0].tolist()
+                    gsc = max(1.0, float(Jfd.abs().max()))
+                    lim = torch.zeros_like(err)
+                    r0 = 0
+                    for i_ in range(nres):
+                        r1 = r0 + int(env.corr_log[i_]["J"].shape[0])
+                        omag = float(outs0[i_].abs().max()) if outs0[i_].numel() else 0.0
+                        c0 = 0
+                        for pi in jac_params:
+                            c1 = c0 + numels[pi]
+                            bsc = float(Jfd[r0:r1, c0:c1].abs().max()) if (r1 > r0 and c1 > c0) else 0.0
+                            lim[r0:r1, c0:c1] = (tolj * gsc) if f32 else (tolj * bsc + 1e-9 * (1.0 + omag))
+                            c0 = c1
+                        r0 = r1
+                    if bool((err > lim).any()):
+                        ratio = err / lim
+                        ij = (ratio == ratio.max()).nonzero()[0].tolist()
                         ctx.fail(cd, f"jac: Jacobian seen by the optimizer differs from the tangent-space finite-difference Jacobian "
-                                     f"by {float(err.max()):.3e} (scale {sc:.2e}) at row/col {ij} ({tag})")
+                                     f"by {float(err[ij[0], ij[1]]):.3e} (allowed {float(lim[ij[0], ij[1]]):.3e}) at row/col {ij} ({tag})")
                         ok = False
                     # slot columns of group parameters are exactly zero
                     o = 0
@@ -1214,7 +1268,9 @@ def gen_spd(rng, d, mag=None):
     return [[mag * M[i][j] for j in range(d)] for i in range(d)]
 
 
-def gen_weight(rng, shapes, dtype, force_suffix=None):
+def gen_weight(rng, shapes, dtype, force_suffix=None, layouts=0.0, wide=False, layout=None, alias=0.0):
+    """SPD weights, one per residual, in a documented shape (suffix of the batch shape + (d, d)).  `layouts` = probability
+    of a non-contiguous memory layout, `layout` forces one, `alias` = probability that two residuals share one tensor"""
     ws = []
     for sh in shapes:
         if not sh:
@@ -1222,14 +1278,80 @@ def gen_weight(rng, shapes, dtype, force_suffix=None):
         batch, d = sh[:-1], sh[-1]
         j = rng.randint(0, len(batch)) if force_suffix is None else min(force_suffix, len(batch))
         wb = batch[len(batch) - j:]
+        if ws and rng.random() < alias and ws[0]["shape"] == wb + [d, d] and "alias_of" not in ws[0] and ws[0].get("layout", "contig") != "expand":
+            ws.append({"shape": wb + [d, d], "values": ws[0]["values"], "alias_of": 0, "layout": ws[0].get("layout", "contig")})
+            continue
         nb = int(math.prod(wb))
         vals = []
         for _ in range(nb):
-            vals += [x for row in gen_spd(rng, d) for x in row]
+            mag = rng.choice([1e-8, 1e8, 1e-5, 1e5]) if (wide and rng.random() < 0.5) else None
+            vals += [x for row in gen_spd(rng, d, mag) for x in row]
         t = torch.tensor(vals, dtype=torch.float64).to(U.dt(dtype)).to(torch.float64)
-        # keep exact symmetry after the dtype round trip
-        ws.append({"shape": wb + [d, d], "values": t.tolist()})
+        spec = {"shape": wb + [d, d], "values": t.tolist()}
+        lay = layout if layout is not None else (rng.choice(["mT", "slice", "tbatch", "bslice", "expand"]) if rng.random() < layouts else "contig")
+        if lay == "expand":
+            if j < len(batch):      # the same values, presented as the next longer documented shape through expand()
+                j2 = rng.randint(j + 1, len(batch))
+                full = batch[len(batch) - j2:] + [d, d]
+                spec = {"shape": full, "base_shape": wb + [d, d], "layout": "expand",
+                        "values": t.reshape(wb + [d, d]).expand(*full).reshape(-1).tolist()}
+            else:
+                lay = "contig"
+        if lay == "tbatch" and j < 2:
+            lay = "bslice" if j >= 1 else "mT"
+        if lay == "bslice" and j < 1:
+            lay = "slice"
+        if lay not in ("contig", "expand"):
+            spec["layout"] = lay
+        ws.append(spec)
     return ws
+
+
+def gen_targets(rng, outs, dtype, tmode, tscale=None, layouts=0.0, alias=0.0):
+    """targets at a chosen distance from the current outputs; tmode `peritem`: every batch item its own distance
+    (exact / tiny / ordinary / large mixed in one batch)"""
+    if tmode == "none":
+        return None
+    ladder = [0.0, 1e-18, 1e-15, 1e-12, 1e-9, 1e-6, 1e-3, 0.1, 0.1, 1.0, 1.0]
+    tg = []
+    for o in outs:
+        if tmode == "mixed" and rng.random() < 0.4:
+            tg.append(None)
+            continue
+        if tg and tg[0] is not None and rng.random() < alias and tg[0]["shape"] == list(o.shape) and "alias_of" not in tg[0]:
+            tg.append({"shape": list(o.shape), "values": tg[0]["values"], "alias_of": 0})
+            continue
+        noise = torch.tensor([rng.gauss(0, 1) for _ in range(o.numel())], dtype=torch.float64).reshape(o.shape)
+        if tmode == "peritem" and o.dim() >= 2:
+            nit = int(math.prod(o.shape[:-1]))
+            scv = torch.tensor([rng.choice([0.0, 0.0, 1e-15, 1e-9, 1e-3, 0.3, 3.0, 30.0]) for _ in range(nit)], dtype=torch.float64)
+            sc = scv.reshape(tuple(o.shape[:-1]) + (1,))
+        else:
+            sc = tscale if tscale is not None else rng.choice(ladder)
+        t = (o.double() + sc * noise).to(U.dt(dtype)).to(torch.float64)
+        spec = {"shape": list(o.shape), "values": t.reshape(-1).tolist()}
+        if rng.random() < layouts:
+            spec["layout"] = rng.choice(["slice", "step", "perm"])
+        tg.append(spec)
+    return tg
+
+
+def param_edit_for(rng, case):
+    """an in-place modification of one parameter by the caller between two steps"""
+    cands = [(li, lf) for li, lf in enumerate(case["leaves"]) if lf["role"] == "param"]
+    li, lf = rng.choice(cands)
+    ty = lf["ty"]
+    if lf.get("zerodim"):
+        return {str(li): {"mode": "copy", "values": G.gen_leaf_item(rng, ty)[0]}}
+    n = int(math.prod(lf["lshape"]))
+    if n == 0:
+        return None
+    mode = rng.choice(["copy", "item", "add"] if ty[0] in ("E", "S", "A") else ["copy", "item"])
+    if mode == "copy":
+        return {str(li): {"mode": "copy", "values": [G.gen_leaf_item(rng, ty) for _ in range(n)]}}
+    if mode == "item":
+        return {str(li): {"mode": "item", "item": rng.randrange(n), "values": G.gen_leaf_item(rng, ty)}}
+    return {str(li): {"mode": "add", "values": [[rng.gauss(0, 0.3) for _ in range(G.tdim(ty))] for _ in range(n)]}}
 
 
 def make_case(rng, **force):
@@ -1245,7 +1367,7 @@ def make_case(rng, **force):
             frozen = [False] * nP
             if nP >= 2 and rng.random() < 0.06:
                 frozen[rng.randrange(nP)] = True
-        bld = G.Builder(rng, bshape, ptypes, frozen)
+        bld = G.Builder(rng, bshape, ptypes, frozen, wide=force.get("wide", 0.06), full=force.get("full", False))
         nres = force.get("nres", rng.choice([1, 1, 2]))
         roots, rtys = [], []
         pidx = [i for i, lf in enumerate(bld.leaves) if lf["role"] == "param"]
@@ -1276,22 +1398,20 @@ def make_case(rng, **force):
     else:
         raise common.InfraError("could not generate a residual model within the size limits")
     case["shapes"] = shapes
+    # memory layouts: parameters that are views into a larger buffer of the caller, non-contiguous inputs
+    vprob, lprob = force.get("views", 0.12), force.get("layouts", 0.15)
+    for lf in case["leaves"]:
+        if lf["role"] == "param" and rng.random() < vprob:
+            lf["view"] = rng.choice(["slice", "step"])
+        if lf["role"] == "input" and rng.random() < lprob:
+            lf["layout"] = rng.choice(["slice", "step", "perm", "bslice"])
     # targets
-    tmode = force.get("target", rng.choice(["near", "near", "near", "none", "mixed"]))
-    if tmode == "none":
-        case["targets"] = None
-    else:
-        tg = []
-        for o in outs:
-            if tmode == "mixed" and rng.random() < 0.4:
-                tg.append(None)
-                continue
-            sc = force.get("tscale", rng.choice([0.0, 1e-18, 1e-15, 1e-12, 1e-9, 1e-6, 1e-3, 0.1, 0.1, 1.0, 1.0]))
-            noise = torch.tensor([rng.gauss(0, 1) for _ in range(o.numel())], dtype=torch.float64).reshape(o.shape)
-            t = (o.double() + sc * noise).to(U.dt(dtype)).to(torch.float64)
-            tg.append({"shape": list(o.shape), "values": t.reshape(-1).tolist()})
-        case["targets"] = tg if any(t is not None for t in tg) or rng.random() < 0.5 else None
-        if len(roots) == 1 and not case["tuple_out"] and case["targets"] is not None and case["targets"][0] is None:
+    tmode = force.get("target", rng.choice(["near", "near", "near", "none", "mixed", "peritem", "peritem"]))
+    case["targets"] = gen_targets(rng, outs, dtype, tmode, force.get("tscale"), lprob, force.get("alias", 0.3))
+    if case["targets"] is not None:
+        if not any(t is not None for t in case["targets"]) and rng.random() < 0.5:
+            case["targets"] = None
+        elif len(roots) == 1 and not case["tuple_out"] and case["targets"][0] is None:
             case["targets"] = None
     case["target_tuple"] = rng.random() < 0.5
     # optimizer
@@ -1321,9 +1441,9 @@ def make_case(rng, **force):
     if kmode == "none":
         case["kernel"], case["corrector"] = None, None
     elif kmode == "auto":
-        case["kernel"], case["corrector"] = rand_kernel(rng), None
+        case["kernel"], case["corrector"] = (force.get("kernel_spec") or rand_kernel(rng)), None
     elif kmode in ("fast", "triggs"):
-        kk = rand_kernel(rng)
+        kk = force.get("kernel_spec") or rand_kernel(rng)
         case["kernel"] = kk
         case["corrector"] = {"type": "FastTriggs" if kmode == "fast" else "Triggs", "kernel": kk}
     else:
@@ -1346,12 +1466,15 @@ def make_case(rng, **force):
         case["out_as_tensor"] = [rng.random() < 0.5 for _ in roots]
     # weights
     wmode = force.get("wmode", rng.choice(["none", "none", "ctor", "ctor", "step", "both"]))
-    case["weight_ctor"] = gen_weight(rng, shapes, dtype, force.get("wsuffix")) if wmode in ("ctor", "both") else None
-    case["weight_step"] = gen_weight(rng, shapes, dtype, force.get("wsuffix")) if wmode in ("step", "both") else None
+    wkw = dict(layouts=force.get("wlayouts", 0.2), wide=rng.random() < force.get("wide", 0.06) * 2, layout=force.get("wlayout"),
+               alias=force.get("alias", 0.3))
+    case["weight_ctor"] = gen_weight(rng, shapes, dtype, force.get("wsuffix"), **wkw) if wmode in ("ctor", "both") else None
+    case["weight_step"] = gen_weight(rng, shapes, dtype, force.get("wsuffix"), **wkw) if wmode in ("step", "both") else None
     case["wstyle"] = rng.choice(["list", "tuple", "tensor"])
     # calls
-    ncalls = force.get("ncalls", rng.choice([1, 1, 1, 2, 3]))
+    ncalls = force.get("ncalls", rng.choice([1, 1, 2, 2, 3]))
     calls = []
+    cur_case, cur_shapes = case, shapes
     for ci in range(ncalls):
         call = {}
         if case["weight_step"] is not None and (wmode == "step" or rng.random() < 0.6 or ci == 0):
@@ -1372,7 +1495,65 @@ def make_case(rng, **force):
                 if rng.random() < 0.5:
                     ed["damping"] = rng.choice(DAMPINGS)
                 call["pg_edit"] = ed
-        call["jac_check"] = ci == 0 or rng.random() < 0.3
+        call["jac_check"] = ci == 0 or rng.random() < force.get("jac_later", 0.5)
+        # OBJECT REUSE / STALE READS: from the second call on, everything the caller can vary per call may vary
+        if ci > 0 and rng.random() < force.get("vary", 0.7):
+            cur = cur_case
+            newin = {}
+            reshape_ok = wmode in ("none", "step") and not force.get("keep_shapes")
+            for li, lf in enumerate(cur["leaves"]):
+                if lf["role"] != "input" or rng.random() < 0.25:
+                    continue
+                lsh = lf["lshape"]
+                if reshape_ok and rng.random() < 0.3:
+                    lsh = G.sub_shape(rng, bshape)
+                n_ = int(math.prod(lsh))
+                ov = {"lshape": list(lsh), "values": [G.gen_leaf_item(rng, lf["ty"]) for _ in range(n_)]}
+                ov["layout"] = rng.choice(["slice", "step", "perm", "bslice"]) if rng.random() < lprob else None
+                newin[str(li)] = ov
+            trial = dict(cur); trial_leaves = [dict(lf) for lf in cur["leaves"]]
+            for k_, ov in newin.items():
+                trial_leaves[int(k_)].update(ov)
+            trial["leaves"] = trial_leaves
+            try:
+                outs_c = G.out_batch_dims(trial)
+                good = all(bool(torch.isfinite(o).all()) for o in outs_c) and sum(int(o.numel()) for o in outs_c) <= force.get("max_rows", 42) \
+                    and all(o.numel() > 0 for o in outs_c)
+            except Exception:
+                good = False
+            if good:
+                shapes_c = [list(o.shape) for o in outs_c]
+                same_shapes = shapes_c == cur_shapes
+                if newin:
+                    call["inputs"] = newin
+                if rng.random() < 0.8 or not same_shapes:
+                    tm = rng.choice(["near", "peritem", "mixed", "none"]) if case["targets"] is not None or rng.random() < 0.3 else "none"
+                    tgs = gen_targets(rng, outs_c, dtype, tm, None, lprob, force.get("alias", 0.3))
+                    if tgs is not None and len(roots) == 1 and not case["tuple_out"] and tgs[0] is None:
+                        tgs = None
+                    call["targets"] = tgs
+                if case["weight_step"] is not None and (rng.random() < 0.8 or not same_shapes):
+                    call["weight_step"] = gen_weight(rng, shapes_c, dtype, None, **wkw)
+                    call["weight"] = "step" if (not same_shapes or rng.random() < 0.7) else call["weight"]
+                elif not same_shapes:
+                    call["weight"] = "none"
+                if same_shapes and rng.random() < 0.4:
+                    call["inplace"] = True        # the caller overwrites its own tensors instead of passing new ones
+                    for ov in newin.values():
+                        ov.pop("layout", None)       # the overwritten tensor keeps its memory layout
+                if same_shapes and call["weight"] == "ctor" and case["weight_ctor"] is not None and rng.random() < 0.5:
+                    fresh = gen_weight(rng, shapes_c, dtype, None, layouts=0.0, wide=False, layout="contig", alias=0.0)
+                    edits = []
+                    for w0, w1 in zip(case["weight_ctor"], fresh):
+                        edits.append(w1["values"] if (w0["shape"] == w1["shape"] and w0.get("layout", "contig") == "contig"
+                                                      and "alias_of" not in w0) else None)
+                    if any(e_ is not None for e_ in edits):
+                        call["ctor_weight_edit"] = edits
+                cur_case, cur_shapes = trial, shapes_c
+        if ci > 0 and rng.random() < force.get("pedit", 0.3):
+            pe = param_edit_for(rng, case)
+            if pe is not None:
+                call["param_edit"] = pe
         calls.append(call)
     case["calls"] = force.get("calls", calls)
     return case
@@ -1392,6 +1573,124 @@ def nontrivial(case):
     for r in case["roots"]:
         reach |= G.node_leaves(r)
     return any(case["leaves"][i]["role"] == "param" and case["leaves"][i]["rg"] for i in reach)
+
+
+# ----------------------------------------------------------------------------- item-wise = batched (mixed-regime batches)
+
+def slice_case(case, t):
+    """the same problem restricted to batch item `t` (every leaf, target and weight carries the batch as first dim)"""
+    c = json.loads(json.dumps(case))
+    B = case["bshape"][0]
+    for lf in c["leaves"]:
+        lf["lshape"] = lf["lshape"][1:]
+        per = len(lf["values"]) // B
+        lf["values"] = lf["values"][t * per:(t + 1) * per]
+        lf.pop("view", None); lf.pop("layout", None)
+    for key in ("targets",):
+        if c[key] is not None:
+            for sp in c[key]:
+                if sp is not None:
+                    per = len(sp["values"]) // B
+                    sp["shape"] = sp["shape"][1:]
+                    sp["values"] = sp["values"][t * per:(t + 1) * per]
+    for key in ("weight_ctor", "weight_step"):
+        if c[key] is not None:
+            for sp, sh in zip(c[key], case["shapes"]):
+                if len(sp["shape"]) - 2 == len(sh) - 1:      # the weight has the full batch shape: take item t's blocks
+                    per = len(sp["values"]) // B
+                    sp["shape"] = sp["shape"][1:]
+                    sp["values"] = sp["values"][t * per:(t + 1) * per]
+    c["shapes"] = [sh[1:] for sh in case["shapes"]]
+    c["bshape"] = case["bshape"][1:]
+    return c
+
+
+def gn_delta(case):
+    """one GN step on the real code: (parameters before, after, conditioning info) or the exception"""
+    env = build_env(case)
+    setup_call(env, 0)
+    before = [raw(p_).clone() for p_ in env.params]
+    with contextlib.redirect_stdout(io.StringIO()), warnings.catch_warnings():
+        warnings.simplefilter("ignore")
+        env.opt.step(env.input, target=env.target, weight=pass_weight(env.wstep, case.get("wstyle", "list")))
+    A = env.sol_log[0]["A"].double()
+    sv = torch.linalg.svdvals(A) if A.numel() else torch.zeros(0)
+    return before, [raw(p_).clone() for p_ in env.params], sv, env
+
+
+def check_itemwise(ctx: Ctx, case):
+    """a batch whose items are independent problems (every leaf batched, no sharing): the batched GN step must move item t
+    exactly as the same step on item t alone — batch-level any()/all() decisions (Exp/Log branches, kernel and corrector
+    masks, rank decisions) are invisible to homogeneous batches and to per-entry checks of one run"""
+    cd = cdesc(case)
+    eps = EPS[case["dtype"]]
+    f64 = case["dtype"] == "float64"
+    B = case["bshape"][0]
+    singles = []
+    for t in range(B):
+        try:
+            b1, a1, sv1, _ = gn_delta(slice_case(case, t))
+        except Exception:
+            ctx.count("itemwise.degenerate")       # an item that cannot be stepped on its own says nothing about batching
+            return
+        if not all(bool(torch.isfinite(x_).all()) for x_ in a1):
+            ctx.count("itemwise.degenerate")
+            return
+        singles.append((b1, a1, sv1))
+    try:
+        b0, a0, sv0, env = gn_delta(case)
+    except Exception as e:
+        ctx.fail(cd, f"itemwise: the batched step raises {type(e).__name__}: {str(e)[:160]} although every item steps on its own")
+        return
+    if not all(bool(torch.isfinite(x_).all()) for x_ in a0):
+        ctx.fail(cd, "itemwise: the batched step produces non-finite parameters although every item alone gives finite ones")
+        return
+    smax = float(sv0.max()) if sv0.numel() else 0.0
+    pos = sv0[sv0 > 1e-12 * smax] if smax > 0 else sv0
+    if smax == 0.0 or float(pos.min()) < (1e-6 if f64 else 1e-3) * smax:
+        ctx.count("itemwise.ill-conditioned")      # rank decisions are relative to the largest singular value of the whole batch
+        return
+    A0 = env.sol_log[0]["A"].double()
+    zero_cols = int((A0.abs().amax(0) == 0).sum()) if A0.numel() else 0
+    unique = int((sv0 > 1e-12 * smax).sum()) == A0.shape[1] - zero_cols
+    uses_pinv = case["solver"] == "PINV" or (case["solver"] == "default" and env.default_solver == "PINV")
+    if not unique and not uses_pinv:
+        ctx.count("itemwise.nonunique-lstsq")      # LSTSQ promises *a* least-squares solution; only PINV's is canonical
+        return
+    gmax = max((float((xa - xb).abs().max()) for xa, xb in zip(a0, b0) if xa.numel()), default=0.0)
+    for t in range(B):
+        b1, a1, _ = singles[t]
+        for pi, (xb, xa, yb, ya) in enumerate(zip(b0, a0, b1, a1)):
+            db = (xa - xb).double().reshape(B, -1)[t]
+            ds = (ya - yb).double().reshape(-1)
+            sc = max(float(db.abs().max()), float(ds.abs().max()))
+            lim = ((1e-6 if f64 else 2e-2) * sc + (1e-9 if f64 else 1e-4) * gmax
+                   + 256 * eps * max(1.0, float(xb.double().abs().max())))
+            if not bool(((db - ds).abs() <= lim).all()):
+                j = int((db - ds).abs().argmax())
+                ctx.fail(cd, f"itemwise: batched GN step moves item {t} of parameter {pi} by {float(db[j]):.6e} (component {j}) but the same "
+                             f"step on that item alone moves it by {float(ds[j]):.6e}")
+                return
+    ctx.count("itemwise.checked")
+
+
+def itemwise_cases(rng, n, kernels=False):
+    out = []
+    plan = [None] * n
+    if kernels:     # every kernel with the automatic, the fast and the full Triggs corrector
+        plan = [(km, {"name": nm, "args": list(ar)}) for nm, ar in KERNELS for km in ("auto", "fast", "triggs")]
+    for i, pl in enumerate(plan):
+        B = rng.choice([2, 3, 4])
+        extra = {} if pl is None else {"kmode": pl[0], "kernel_spec": pl[1]}
+        c = make_case(rng, opt="GN", bshape=[B], full=True, ncalls=1, target="peritem", views=0.0, layouts=0.0, wlayouts=0.0,
+                      alias=0.0, frozen=None, nparams=rng.choice([1, 1, 2]), solver=rng.choice(["PINV", "LSTSQ", "default"]),
+                      wide=0.15, max_rows=60, max_cols=40, wsuffix=rng.choice([0, 0, 1, 1, 1]),
+                      **({"kmode": rng.choice(["none", "auto", "fast", "triggs", "list"])} if pl is None else extra))
+        c["bshape"] = [B]
+        if any(not lf["rg"] for lf in c["leaves"] if lf["role"] == "param"):
+            continue
+        out.append(c)
+    return out
 
 
 # ----------------------------------------------------------------------------- deterministic corner corpus
@@ -1432,6 +1731,29 @@ def corner_cases():
             outs = G.out_batch_dims(c)
             c["targets"] = [{"shape": list(o.shape), "values": (o.double() + ts * torch.linspace(-1, 1, o.numel()).reshape(o.shape).double()).reshape(-1).tolist()} for o in outs]
             out.append(c)
+    # ---- hardening classes -------------------------------------------------------------------------------------------
+    # (1) extreme-but-valid elements and weights (rotation up to pi-1e-3, translations 1e3, scales e^+-12, weights 1e-8..1e8)
+    for g in U.GROUPS:
+        out.append(make_case(rng, opt=rng.choice(["GN", "LM"]), ptypes=[["G", g], ["A", g]], wide=1.0, wmode="ctor", dtype="float64",
+                             nbad=0, ncalls=1, views=0.0, layouts=0.0, wlayouts=0.0))
+    # (4) one optimizer, three calls, every per-call argument replaced (inputs incl. their batch shape, targets, weights,
+    #     param_groups), (5) the caller overwrites its tensors / edits parameters and the constructor weight in place
+    for opt in ("GN", "LM"):
+        for wm in ("step", "both", "ctor", "none"):
+            out.append(make_case(rng, opt=opt, wmode=wm, ncalls=3, vary=1.0, pedit=1.0, jac_later=0.5, dtype="float64",
+                                 nbad=1, views=0.0, layouts=0.0, wlayouts=0.0, keep_shapes=(wm in ("both", "ctor"))))
+    # (6) every memory layout of weights; inputs / targets / parameters as views of larger buffers; shared tensors
+    for lay in ("mT", "slice", "tbatch", "bslice", "expand"):
+        for opt in ("GN", "LM"):
+            out.append(make_case(rng, opt=opt, bshape=[2, 3], ptypes=[["G", "SE3"], ["E", 3]], nres=1, depth=1, wmode="step",
+                                 wlayout=lay, wsuffix=(1 if lay == "expand" else 2), ncalls=1, dtype="float64", nbad=0, views=1.0,
+                                 layouts=1.0, kmode="none"))
+    for _ in range(3):
+        out.append(make_case(rng, nres=2, alias=1.0, wmode="both", views=1.0, layouts=1.0, wlayouts=0.5, ncalls=2, vary=1.0, nbad=0))
+    # (7) batches whose items are in different regimes (exact / tiny / ordinary / far targets per item)
+    for g in U.GROUPS:
+        out.append(make_case(rng, opt=rng.choice(["GN", "LM"]), bshape=[4], ptypes=[["G", g]], full=True, target="peritem", nbad=0, max_rows=60, max_cols=40,
+                             dtype="float64", ncalls=1))
     # frozen parameter (known defect on the current tree)
     out.append(make_case(rng, opt="GN", ptypes=[["E", 3], ["G", "SE3"]], frozen=[True, False], dtype="float64"))
     out.append(make_case(rng, opt="LM", ptypes=[["G", "SO3"], ["A", "SE3"], ["S"]], frozen=[False, True, False], dtype="float64"))
@@ -1479,7 +1801,11 @@ def run(ctx: Ctx):
     flush(ctx, pending)
     run_cases(ctx, corner_cases(), pending)
     flush(ctx, pending)
-    n = ctx.pick(110, 2000)
+    for c in (itemwise_cases(random.Random(7_0708), 10) + itemwise_cases(random.Random(7_0709), 0, kernels=True)
+              + itemwise_cases(rng, ctx.pick(16, 400))):
+        check_itemwise(ctx, c)
+        ctx.note_case(("itemwise",) + case_signature(c), True)
+    n = ctx.pick(60, 1800)
     run_cases(ctx, [make_case(rng) for _ in range(n)], pending)
     flush(ctx, pending)
 
